@@ -1,0 +1,477 @@
+//! Cooperative scheduler shim for `bab.rs` (only compiled with the cargo feature `verif`).
+//!
+//! Drop-in replacements for `std::sync::{Mutex, Condvar}` and `std::thread::{Builder, JoinHandle}` under which all
+//! managed threads are real OS threads, but exactly one of them holds the run token at any time. At every yield point
+//! (`lock`, `Condvar::wait`, `spawn`, `join`, thread exit) a controller callback, installed by the verification
+//! harness via [run], sees the enabled scheduling actions and picks one; `notify_one` asks the controller *which*
+//! waiter to wake. This makes every schedule of critical sections (including spurious wake-ups and the choice of
+//! the woken waiter) reachable and replayable from a list of integers. "No enabled action while some thread is
+//! unfinished" is reported as a deadlock.
+//!
+//! Without an installed controller (e.g. when the crate's own tests run with the feature enabled) a default
+//! controller is created on first use which always picks the first enabled action.
+use std::any::Any;
+use std::collections::HashMap;
+use std::sync::{Arc, Condvar as StdCondvar, Mutex as StdMutex};
+
+#[derive(Clone, Debug, PartialEq)]
+pub enum Action {
+    Start(usize),
+    Acquire(usize),
+    Spurious(usize),
+    Join(usize),
+    Wake(usize),
+}
+
+/// One record of the history of a run: a scheduling decision, a `notify_all`, a thread's end, or a hook event emitted
+/// by the instrumented code (with the id of the emitting thread).
+#[derive(Clone, Debug, PartialEq)]
+pub enum Record {
+    Sched(Action),
+    NotifyAll(usize),
+    Finished(usize, bool),
+    Hook(usize, String),
+}
+
+#[derive(Clone, Debug, PartialEq)]
+enum TS {
+    NotStarted,
+    Running,
+    WantLock(usize),
+    CvWait(usize, usize),
+    WantJoin(usize),
+    Finished(bool),
+}
+
+pub type Chooser = Box<dyn FnMut(&[Action]) -> usize + Send>;
+
+struct Inner {
+    threads: Vec<TS>,
+    current: Option<usize>,
+    owner: HashMap<usize, Option<usize>>,
+    next_id: usize,
+    chooser: Chooser,
+    spurious: bool,
+    trace: Vec<Record>,
+    deadlock: bool,
+    max_records: usize,
+}
+pub struct Ctrl {
+    m: StdMutex<Inner>,
+    cv: StdCondvar,
+}
+
+thread_local! { static TID: std::cell::Cell<usize> = std::cell::Cell::new(usize::MAX); }
+thread_local! { static CTRL: std::cell::RefCell<Option<Arc<Ctrl>>> = std::cell::RefCell::new(None); }
+
+fn new_ctrl(chooser: Chooser, spurious: bool) -> Arc<Ctrl> {
+    Arc::new(Ctrl {
+        m: StdMutex::new(Inner {
+            threads: vec![TS::Running],
+            current: Some(0),
+            owner: HashMap::new(),
+            next_id: 0,
+            chooser,
+            spurious,
+            trace: vec![],
+            deadlock: false,
+            max_records: 2_000_000,
+        }),
+        cv: StdCondvar::new(),
+    })
+}
+
+fn ctrl() -> Arc<Ctrl> {
+    CTRL.with(|c| {
+        let mut c = c.borrow_mut();
+        if c.is_none() {
+            // default controller: the calling thread becomes managed thread 0; always the first enabled action
+            TID.with(|t| t.set(0));
+            *c = Some(new_ctrl(Box::new(|_acts| 0), false));
+        }
+        c.as_ref().unwrap().clone()
+    })
+}
+fn set_ctrl(c: Arc<Ctrl>) {
+    CTRL.with(|x| *x.borrow_mut() = Some(c));
+}
+fn me() -> usize {
+    TID.with(|t| t.get())
+}
+fn lock_inner(c: &Ctrl) -> std::sync::MutexGuard<'_, Inner> {
+    match c.m.lock() {
+        Ok(g) => g,
+        Err(e) => e.into_inner(),
+    }
+}
+
+struct DeadlockPanic;
+
+/// Hook for the instrumented code: append an event to the history of the current run (no-op outside a managed thread).
+pub fn hook(event: String) {
+    let has = CTRL.with(|c| c.borrow().is_some());
+    if !has {
+        return;
+    }
+    let c = ctrl();
+    let t = me();
+    let mut g = lock_inner(&c);
+    if g.trace.len() < g.max_records {
+        g.trace.push(Record::Hook(t, event));
+    }
+}
+
+impl Ctrl {
+    fn enabled(inner: &Inner) -> Vec<Action> {
+        let mut v = Vec::new();
+        for (t, s) in inner.threads.iter().enumerate() {
+            match s {
+                TS::NotStarted => v.push(Action::Start(t)),
+                TS::WantLock(m) => {
+                    if inner.owner.get(m).copied().flatten().is_none() {
+                        v.push(Action::Acquire(t))
+                    }
+                }
+                TS::CvWait(..) => {
+                    if inner.spurious {
+                        v.push(Action::Spurious(t))
+                    }
+                }
+                TS::WantJoin(u) => {
+                    if matches!(inner.threads[*u], TS::Finished(_)) {
+                        v.push(Action::Join(t))
+                    }
+                }
+                _ => {}
+            }
+        }
+        v
+    }
+    /// Called by the thread that gives up the token. Picks actions until some thread is running.
+    fn schedule(&self, inner: &mut Inner) {
+        inner.current = None;
+        loop {
+            let en = Self::enabled(inner);
+            // a schedule made only of spurious wake-ups is not progress: deadlock if nothing else is enabled
+            if en.iter().all(|a| matches!(a, Action::Spurious(_))) {
+                if inner.threads.iter().all(|s| matches!(s, TS::Finished(_))) {
+                    break;
+                }
+                inner.deadlock = true;
+                break;
+            }
+            if inner.trace.len() >= inner.max_records {
+                // runaway schedule (e.g. only spurious wake-ups chosen for ever): stop it, report as deadlock
+                inner.deadlock = true;
+                break;
+            }
+            let i = (inner.chooser)(&en) % en.len();
+            let a = en[i].clone();
+            inner.trace.push(Record::Sched(a.clone()));
+            match a {
+                Action::Start(t) => {
+                    inner.threads[t] = TS::Running;
+                    inner.current = Some(t);
+                    break;
+                }
+                Action::Acquire(t) => {
+                    if let TS::WantLock(m) = inner.threads[t] {
+                        inner.owner.insert(m, Some(t));
+                    }
+                    inner.threads[t] = TS::Running;
+                    inner.current = Some(t);
+                    break;
+                }
+                Action::Join(t) => {
+                    inner.threads[t] = TS::Running;
+                    inner.current = Some(t);
+                    break;
+                }
+                Action::Spurious(t) => {
+                    if let TS::CvWait(_c, m) = inner.threads[t] {
+                        inner.threads[t] = TS::WantLock(m);
+                    }
+                }
+                Action::Wake(_) => unreachable!(),
+            }
+        }
+        self.cv.notify_all();
+    }
+    fn wait_turn<'a>(
+        &'a self,
+        mut g: std::sync::MutexGuard<'a, Inner>,
+        t: usize,
+    ) -> std::sync::MutexGuard<'a, Inner> {
+        loop {
+            if g.deadlock {
+                drop(g);
+                std::panic::resume_unwind(Box::new(DeadlockPanic));
+            }
+            if g.current == Some(t) {
+                return g;
+            }
+            g = match self.cv.wait(g) {
+                Ok(g) => g,
+                Err(e) => e.into_inner(),
+            };
+        }
+    }
+}
+
+/// Result of a controlled run
+pub struct RunResult<R> {
+    /// `None` if the run ended in a deadlock; otherwise the body's result (Err = the body panicked)
+    pub result: Option<std::thread::Result<R>>,
+    pub trace: Vec<Record>,
+    pub deadlock: bool,
+}
+
+/// Run `body` as managed thread 0 under the given chooser.
+pub fn run<R: Send + 'static>(
+    chooser: Chooser,
+    spurious: bool,
+    body: impl FnOnce() -> R + Send + 'static,
+) -> RunResult<R> {
+    let c = new_ctrl(chooser, spurious);
+    let c2 = c.clone();
+    let h = std::thread::spawn(move || {
+        TID.with(|t| t.set(0));
+        set_ctrl(c2.clone());
+        let r = std::panic::catch_unwind(std::panic::AssertUnwindSafe(body));
+        let mut g = lock_inner(&c2);
+        let dl = matches!(&r, Err(p) if p.is::<DeadlockPanic>());
+        g.threads[0] = TS::Finished(r.is_err());
+        if !dl {
+            g.trace.push(Record::Finished(0, r.is_err()));
+            c2.schedule(&mut g);
+        } else {
+            c2.cv.notify_all();
+        }
+        if dl {
+            None
+        } else {
+            Some(r)
+        }
+    });
+    let r = h.join().unwrap();
+    let mut g = lock_inner(&c);
+    let main_done = matches!(g.threads[0], TS::Finished(_)) && r.is_some();
+    let (trace, dl) = (g.trace.clone(), g.deadlock && !main_done);
+    // flush leaked threads (workers still parked after the body returned or panicked): make them unwind
+    g.deadlock = true;
+    c.cv.notify_all();
+    drop(g);
+    RunResult {
+        result: r,
+        trace,
+        deadlock: dl,
+    }
+}
+
+// ---------------------------------------------------------------- Mutex / Condvar
+pub struct Mutex<T> {
+    c: Arc<Ctrl>,
+    id: usize,
+    data: std::cell::UnsafeCell<T>,
+    poisoned: std::sync::atomic::AtomicBool,
+}
+unsafe impl<T: Send> Sync for Mutex<T> {}
+unsafe impl<T: Send> Send for Mutex<T> {}
+pub struct MutexGuard<'a, T> {
+    m: &'a Mutex<T>,
+}
+#[derive(Debug)]
+pub struct Poison;
+impl<T> Mutex<T> {
+    pub fn new(t: T) -> Self {
+        let c = ctrl();
+        let mut g = lock_inner(&c);
+        g.next_id += 1;
+        let id = g.next_id;
+        g.owner.insert(id, None);
+        Mutex {
+            c: c.clone(),
+            id,
+            data: std::cell::UnsafeCell::new(t),
+            poisoned: std::sync::atomic::AtomicBool::new(false),
+        }
+    }
+    pub fn lock(&self) -> Result<MutexGuard<'_, T>, Poison> {
+        let c = ctrl();
+        let t = me();
+        let mut g = lock_inner(&c);
+        g.threads[t] = TS::WantLock(self.id);
+        c.schedule(&mut g);
+        let g = c.wait_turn(g, t);
+        drop(g);
+        if self.poisoned.load(std::sync::atomic::Ordering::SeqCst) {
+            // like std: the lock is acquired, but reported as poisoned. The caller's unwrap() will panic; release it.
+            let mut g = lock_inner(&c);
+            g.owner.insert(self.id, None);
+            return Err(Poison);
+        }
+        Ok(MutexGuard { m: self })
+    }
+    pub fn into_inner(self) -> Result<T, Poison> {
+        Ok(self.data.into_inner())
+    }
+}
+impl<'a, T> std::ops::Deref for MutexGuard<'a, T> {
+    type Target = T;
+    fn deref(&self) -> &T {
+        unsafe { &*self.m.data.get() }
+    }
+}
+impl<'a, T> std::ops::DerefMut for MutexGuard<'a, T> {
+    fn deref_mut(&mut self) -> &mut T {
+        unsafe { &mut *self.m.data.get() }
+    }
+}
+impl<'a, T> Drop for MutexGuard<'a, T> {
+    fn drop(&mut self) {
+        if std::thread::panicking() {
+            self.m
+                .poisoned
+                .store(true, std::sync::atomic::Ordering::SeqCst);
+        }
+        let c = self.m.c.clone();
+        let mut g = lock_inner(&c);
+        g.owner.insert(self.m.id, None);
+    }
+}
+
+pub struct Condvar {
+    id: usize,
+}
+impl Default for Condvar {
+    fn default() -> Self {
+        Self::new()
+    }
+}
+impl Condvar {
+    pub fn new() -> Self {
+        let c = ctrl();
+        let mut g = lock_inner(&c);
+        g.next_id += 1;
+        Condvar { id: g.next_id }
+    }
+    pub fn wait<'a, T>(&self, guard: MutexGuard<'a, T>) -> Result<MutexGuard<'a, T>, Poison> {
+        let m = guard.m;
+        std::mem::forget(guard);
+        let c = ctrl();
+        let t = me();
+        let mut g = lock_inner(&c);
+        g.owner.insert(m.id, None);
+        g.threads[t] = TS::CvWait(self.id, m.id);
+        c.schedule(&mut g);
+        let g = c.wait_turn(g, t);
+        drop(g);
+        Ok(MutexGuard { m })
+    }
+    pub fn notify_one(&self) {
+        let c = ctrl();
+        let mut g = lock_inner(&c);
+        let ws: Vec<Action> = g
+            .threads
+            .iter()
+            .enumerate()
+            .filter(|(_, s)| matches!(s, TS::CvWait(cv, _) if *cv == self.id))
+            .map(|(t, _)| Action::Wake(t))
+            .collect();
+        if ws.is_empty() {
+            return;
+        }
+        let i = (g.chooser)(&ws) % ws.len();
+        if let Action::Wake(t) = ws[i] {
+            if let TS::CvWait(_, m) = g.threads[t] {
+                g.threads[t] = TS::WantLock(m);
+            }
+            g.trace.push(Record::Sched(Action::Wake(t)));
+        }
+    }
+    pub fn notify_all(&self) {
+        let c = ctrl();
+        let t = me();
+        let mut g = lock_inner(&c);
+        for t in 0..g.threads.len() {
+            if let TS::CvWait(cv, m) = g.threads[t] {
+                if cv == self.id {
+                    g.threads[t] = TS::WantLock(m);
+                }
+            }
+        }
+        g.trace.push(Record::NotifyAll(t));
+    }
+}
+
+// ---------------------------------------------------------------- thread
+pub mod thread {
+    use super::*;
+    pub struct Builder;
+    pub struct JoinHandle<T> {
+        tid: usize,
+        h: std::thread::JoinHandle<std::thread::Result<T>>,
+    }
+    impl Default for Builder {
+        fn default() -> Self {
+            Self::new()
+        }
+    }
+    impl Builder {
+        pub fn new() -> Self {
+            Builder
+        }
+        pub fn name(self, _n: String) -> Self {
+            self
+        }
+        pub fn spawn<F: FnOnce() -> T + Send + 'static, T: Send + 'static>(
+            self,
+            f: F,
+        ) -> std::io::Result<JoinHandle<T>> {
+            let c = ctrl();
+            let tid = {
+                let mut g = lock_inner(&c);
+                g.threads.push(TS::NotStarted);
+                g.threads.len() - 1
+            };
+            let c2 = c.clone();
+            let h = std::thread::spawn(move || {
+                TID.with(|t| t.set(tid));
+                set_ctrl(c2.clone());
+                let r = std::panic::catch_unwind(std::panic::AssertUnwindSafe(|| {
+                    {
+                        let g = lock_inner(&c2);
+                        let g = c2.wait_turn(g, tid);
+                        drop(g);
+                    }
+                    f()
+                }));
+                let mut g = lock_inner(&c2);
+                let dl = matches!(&r, Err(p) if p.is::<DeadlockPanic>());
+                g.threads[tid] = TS::Finished(r.is_err());
+                if !dl {
+                    g.trace.push(Record::Finished(tid, r.is_err()));
+                    c2.schedule(&mut g);
+                } else {
+                    c2.cv.notify_all();
+                }
+                r
+            });
+            Ok(JoinHandle { tid, h })
+        }
+    }
+    impl<T> JoinHandle<T> {
+        pub fn join(self) -> Result<T, Box<dyn Any + Send + 'static>> {
+            let c = ctrl();
+            let t = me();
+            {
+                let mut g = lock_inner(&c);
+                g.threads[t] = TS::WantJoin(self.tid);
+                c.schedule(&mut g);
+                let g = c.wait_turn(g, t);
+                drop(g);
+            }
+            self.h.join().unwrap()
+        }
+    }
+}
